@@ -226,11 +226,12 @@ def bodiesSize : List (Nat × Expr F) → Nat
   | (_, b) :: rest => exprSize b + 1 + bodiesSize rest
 
 /-- the builder state in which a program starts to be built into an existing object: the entry of the
-program is a new jump entry, the program itself (body `0` of the table) is the only pending root -/
+program is a new jump entry `entry`, the program itself (body `entry` of the table: bodies are named by their jump
+entries; `0` when the object is empty) is the only pending root -/
 def startState (s0 : Prog F) : LState F :=
   let entry := s0.jumps.size
   { instrs := s0.instrs, jumps := s0.jumps.push s0.instrs.size, consts := s0.consts,
-    pending := [⟨.ref 0, entry, [(.endExpression, none)], entry⟩], done := [], depths := Array.replicate s0.instrs.size 0, dep := 0, pendDep := [0] }
+    pending := [⟨.ref entry, entry, [(.endExpression, none)], entry⟩], done := [], depths := Array.replicate s0.instrs.size 0, dep := 0, pendDep := [0] }
 
 def compileState (s0 : Prog F) (p : Program F) : LState F :=
   layoutRoots p.bodies (bodiesSize p.bodies + 2) (startState s0)
